@@ -71,4 +71,46 @@ def indexMirrors (temp : List TempEntry) (idx : List (Nat × Addr)) : Bool :=
 def notDecreased (prev cur : Coins) : Bool :=
   (Coins.denoms prev).all fun d => decide (Coins.amountOf prev d ≤ Coins.amountOf cur d)
 
+/-! ### immediate (temporary) entries and the deposit threshold
+
+"Sanction status follows governance": a proposal acts *before* it passes only when its total
+deposit reaches the immediate min deposit of the kind of message — a non-zero parameter, and
+EVERY denom of it is reached. -/
+
+/-- the total deposit `total` reaches the immediate minimum `minDep` -/
+def Reaches (total minDep : Coins) : Prop :=
+  (∃ d ∈ Coins.denoms minDep, Coins.amountOf minDep d ≠ 0) ∧
+    ∀ d ∈ Coins.denoms minDep, Coins.amountOf minDep d ≤ Coins.amountOf total d
+
+/-- the same, computed (used on dumps of the real gov store and the real sanction params) -/
+def reaches (total minDep : Coins) : Bool :=
+  (Coins.denoms minDep).any (fun d => decide (Coins.amountOf minDep d ≠ 0)) &&
+    (Coins.denoms minDep).all (fun d => decide (Coins.amountOf minDep d ≤ Coins.amountOf total d))
+
+/-- what the messages of a proposal whose total deposit is `total` say about `a` right now:
+the kind of the last message that names `a` among those whose threshold is reached -/
+def lastReached (reached : PMsg → Bool) (a : Addr) : List PMsg → Option Bool
+  | [] => none
+  | m :: rest =>
+    match lastReached reached a rest with
+    | some v => some v
+    | none => if reached m && decide (a ∈ m.addrs) then some m.isSanction else none
+
+/-- a temporary entry that is new in a dump is justified: its proposal is stored, still in its
+deposit or voting period, and its total deposit reaches the (current) immediate minimum of
+the entry's kind. `props` = (id, status letter, total deposit). -/
+def newEntryJustified (props : List (Nat × String × Coins)) (sancMin unsancMin : Coins) (e : TempEntry) : Bool :=
+  match props.find? (fun p => p.1 == e.id) with
+  | some (_, st, total) => (st == "D" || st == "V") && reaches total (if e.val then sancMin else unsancMin)
+  | none => false
+
+/-- after an accepted deposit on proposal `id` (messages `msgs`, total now `total`) every
+address named by a message whose threshold is reached has the entry of the last such message -/
+def reachedEntriesPresent (temp : List TempEntry) (id : Nat) (msgs : List PMsg) (total sancMin unsancMin : Coins) : Bool :=
+  let reached := fun (m : PMsg) => reaches total (if m.isSanction then sancMin else unsancMin)
+  (msgs.flatMap (·.addrs)).all fun a =>
+    match lastReached reached a msgs with
+    | some v => temp.contains ⟨a, id, v⟩
+    | none => true
+
 end PvModel.Sanc.Spec
